@@ -886,6 +886,17 @@ def rule_registry(model):
             if not ok:
                 continue
             if isinstance(val, str):
+                # `name in command.blockContinuations` is the test the tag
+                # readers apply: on a string it is a substring test
+                r.finding('DT_String:String.commands',
+                          f'{key!r}: blockContinuations = {val!r}',
+                          f'the continuation table of {key!r} is the string '
+                          f'{val!r}, not a tuple of names: the readers test '
+                          '`name in blockContinuations`, so every substring '
+                          f'of it ({", ".join(sorted({val[i:j] for i in range(len(val)) for j in range(i + 1, len(val) + 1)} - {val})[:6])} '
+                          '...) is accepted as a continuation tag instead of '
+                          'being rejected as an unknown tag',
+                          node=bc, ctx=ent['cls'].module)
                 val = (val,)
             ctor = None
             for k2, f in reg.constructors():
